@@ -64,7 +64,7 @@ REQUIRE = {
     "quick": {"enum_phase_completed": 16, "ops_checked": 10000, "reopens_checked": 3000, "reopens_nonempty": 1000, "raw_durable_reads": 10000,
               "pulls_nonempty": 1000},
     "thorough": {"enum_phase_completed": 16, "ops_checked": 100000, "reopens_checked": 50000, "reopens_nonempty": 20000, "raw_durable_reads": 100000,
-                 "pulls_nonempty": 10000, "crash_kills": 300, "crash_kills_nonempty": 100},
+                 "pulls_nonempty": 10000, "crash_kills": 100, "crash_kills_nonempty": 40},
 }
 EXHAUSTIVE = {"quick": "all op histories of length <= 3 over the 9-op Durq and 10-op Dusq alphabets x every reopen position",
               "thorough": "all op histories of length <= 4 over the 9-op Durq and 10-op Dusq alphabets x every reopen position"}
